@@ -153,11 +153,31 @@ pub struct Frag<'a> {
 	pub calls: usize,
 	pub split: usize,
 	pub one_byte: bool,
+	/// sizes of the frame parts (header, body, header, ...) of the stream, in order: the reader
+	/// is expected to ask for each part with one `read_exact`. Needed to keep every index
+	/// concrete: the announced body length is parsed out of a copied buffer and CBMC does not
+	/// fold it back to a constant, so `buf.len()` itself is a symbolic expression.
+	pub parts: &'a [usize],
+	pub part: usize,
+	pub rem: usize,
 }
 impl<'a> std::io::Read for Frag<'a> {
 	fn read(&mut self, buf: &mut [u8]) -> std::io::Result<usize> {
+		if self.rem == 0 {
+			if self.part >= self.parts.len() {
+				check!(buf.len() == 0, "nothing is requested beyond the last frame");
+				return Ok(0);
+			}
+			self.rem = self.parts[self.part];
+			self.part += 1;
+		}
+		// over-reading a frame part would block on a quiet connection or eat the next frame
+		check!(buf.len() <= self.rem, "the reader never asks for more than the rest of the current frame part");
+		// a reader that asks for less (legitimate chunking) is outside this model: the path is
+		// cut and the obligation reports VACUOUS (inconclusive), not a violation
+		nd::assume(buf.len() == self.rem);
 		let left = self.data.len() - self.pos;
-		let max = if buf.len() < left { buf.len() } else { left };
+		let max = if self.rem < left { self.rem } else { left };
 		if max == 0 {
 			return Ok(0);
 		}
@@ -174,11 +194,14 @@ impl<'a> std::io::Read for Frag<'a> {
 			i += 1;
 		}
 		self.pos += k;
+		self.rem -= k;
 		self.calls += 1;
 		Ok(k)
 	}
 }
 
+/// packet boundaries tried: every SPLIT_STEP-th offset (1 = all)
+const SPLIT_STEP: usize = parse_env(option_env!("VH_SPLITSTEP"), 1) as usize;
 const UNK_LEN: usize = parse_env(option_env!("VH_UNKLEN"), 3) as usize;
 const UNK_TYPE: u8 = parse_env(option_env!("VH_UNKTYPE"), 200) as u8;
 
@@ -241,7 +264,11 @@ proof! {
 		// every single packet boundary (s = 1..N-1), no boundary (s = 0) and byte-by-byte (s = N)
 		let mut s = 0;
 		while s <= N {
-			let mut src = Frag { data: &wire[..], pos: 0, calls: 0, split: if s < N { s } else { 0 }, one_byte: s == N };
+			if SPLIT_STEP > 1 && s % SPLIT_STEP != 0 && s != N {
+				s += 1;
+				continue;
+			}
+			let mut src = Frag { data: &wire[..], pos: 0, calls: 0, split: if s < N { s } else { 0 }, one_byte: s == N, parts: &[11, 16, 11, UNK_LEN, 11, 16], part: 0, rem: 0 };
 			let r1 = msg::read_message::<Ping, _>(&mut src, v, Type::Ping);
 			match &r1 {
 				Ok(p) => check!(p.total_difficulty.to_num() == d1 && p.height == h1, "the Ping read is the Ping written"),
@@ -269,7 +296,7 @@ proof! {
 }
 
 proof! {
-	fn read_message_type_mismatch_keeps_stream() {
+	[alloc] fn read_message_type_mismatch_keeps_stream() {
 		// read_message::<T> on a well-formed frame of ANOTHER known type with an empty body:
 		// refused as a bad message after consuming exactly the frame header (nothing of the
 		// next frame), and a wrong-magic header is refused too
@@ -283,13 +310,15 @@ proof! {
 			b[i] = 0;
 			i += 1;
 		}
+		env::alloc_block(256);
+		env::alloc_limit(4096);
 		// unfragmented, one boundary inside the header (offset 5), byte-by-byte
 		const MODES: [usize; 3] = [0, 5, 11];
 		let mut mi = 0;
 		while mi < 3 {
 			let sp = MODES[mi];
 			mi += 1;
-			let mut src = Frag { data: &b[..], pos: 0, calls: 0, split: if sp < 11 { sp } else { 0 }, one_byte: sp == 11 };
+			let mut src = Frag { data: &b[..], pos: 0, calls: 0, split: if sp < 11 { sp } else { 0 }, one_byte: sp == 11, parts: &[11], part: 0, rem: 0 };
 			let r = msg::read_message::<msg::Ping, _>(&mut src, ProtocolVersion(1), Type::Ping);
 			let magic: [u8; 2] = match ct {
 				grin_core::global::ChainTypes::Testnet => [83, 59],
